@@ -72,3 +72,26 @@ let show_outcome (f : 'a -> string) (o : 'a outcome) : string =
   | Panic s -> "panic " ^ string_of_int (int_of_n s)
   | OutOfBounds s -> "oob " ^ string_of_int (int_of_n s)
   | OutOfFuel -> "fuel"
+
+(* big numbers as hex strings (u64 does not fit OCaml's int) *)
+let n_of_hexnum (s : string) : n =
+  let r = ref N0 in
+  String.iter (fun ch ->
+    let d = (match ch with '0'..'9' -> Char.code ch - 48 | 'a'..'f' -> Char.code ch - 87 | _ -> failwith "hexnum") in
+    r := N.add (N.mul !r (n_of_int 16)) (n_of_int d)) s;
+  !r
+
+let rec hexnum_of_pos (p : positive) (acc : int list) : int list =
+  (* little-endian bits *)
+  match p with XH -> 1 :: acc | XO q -> hexnum_of_pos q (0 :: acc) | XI q -> hexnum_of_pos q (1 :: acc)
+
+let hexnum_of_n (x : n) : string =
+  match x with
+  | N0 -> "0"
+  | Npos p ->
+    let bits = hexnum_of_pos p [] in   (* most significant first *)
+    let bits = let pad = (4 - (List.length bits mod 4)) mod 4 in List.init pad (fun _ -> 0) @ bits in
+    let rec go l acc = match l with
+      | a :: b :: c :: d :: r -> go r (acc ^ Printf.sprintf "%x" (8*a + 4*b + 2*c + d))
+      | _ -> acc in
+    go bits ""
